@@ -10,6 +10,11 @@ Rules on the -O1 -fno-inline IR (every CNL function still a function):
     arguments are the result's own array and array + capacity, and the stored length is computed from the returned ptr;
  R4 the entry points pass the static result's characters (pointer derived from the to_chars_static result object) to the
     string constructor / the character inserter.
+ R5 (sign and magnitude clause, the structural part of it) in every cnl::to_chars<Rep, Exponent, Radix> the working
+    significand type handed to descale<Significand, 10> represents every value of Rep: at least as many digits, and
+    signed if Rep is.  A narrower or differently-signed working type makes some Rep value print as a different number
+    (wrong sign for the upper half of an unsigned 64-bit Rep), so breaking R5 breaks the property; R5 holding does not
+    establish it.
 Not decided: digit generation, truncation direction, exponent after rescaling (loops over run-time digits).
 """
 import re, os
@@ -32,6 +37,57 @@ extern "C" void e_static_s32(scaled_integer<int, power<-8>> const& v, char* o) {
 extern "C" void e_control(std::ostream* o, int const& v) { *o << v; }
 """
 
+# R5 instances: (C++ spelling of Rep, digits, is_signed); the demangled spelling of built-in working types is in SIGTYPES
+REPS = [("std::int8_t", 7, True), ("std::uint8_t", 8, False), ("std::int16_t", 15, True), ("std::uint16_t", 16, False), ("std::int32_t", 31, True),
+        ("std::uint32_t", 32, False), ("std::int64_t", 63, True), ("std::uint64_t", 64, False), ("long long", 63, True), ("unsigned long long", 64, False),
+        ("cnl::int128_t", 127, True), ("cnl::uint128_t", 128, False),
+        ("cnl::elastic_integer<31>", 31, True), ("cnl::elastic_integer<63>", 63, True), ("cnl::elastic_integer<64, unsigned>", 64, False),
+        ("cnl::elastic_integer<63, unsigned>", 63, False),
+        ("cnl::wide_integer<64, unsigned>", 64, False), ("cnl::wide_integer<63>", 63, True), ("cnl::wide_integer<128, unsigned>", 128, False)]
+SIGTYPES = {"signed char": (7, True), "unsigned char": (8, False), "char": (7, True), "short": (15, True), "unsigned short": (16, False), "int": (31, True), "unsigned int": (32, False),
+            "long": (63, True), "unsigned long": (64, False), "long long": (63, True), "unsigned long long": (64, False), "__int128": (127, True), "unsigned __int128": (128, False)}
+R5_SRC = "".join('extern "C" void r5_%d(scaled_integer<%s, power<%d>> const& v, char* f, char* l, std::to_chars_result* o) { *o = cnl::to_chars(f, l, v); }\n' % (i, rep, (-3, 0, -40)[i % 3])
+                 for i, (rep, d, sg) in enumerate(REPS))
+# positive control for R5: a hand-written formatter that narrows a 64-bit unsigned value into the signed working type
+R5_SRC += 'extern "C" void r5_control(std::uint64_t const& v, cnl::_impl::descaled<std::int64_t, 10>* o) { *o = cnl::_impl::descale<std::int64_t, 10>(v, power<-3>{}); }\n'
+
+
+def _split_targs(s):
+    """top-level template arguments of `name<...>`"""
+    depth, cur, out = 0, "", []
+    for ch in s:
+        if ch in "<(":
+            depth += 1
+        if ch in ">)":
+            depth -= 1
+        if ch == "," and depth == 0:
+            out.append(cur.strip())
+            cur = ""
+        else:
+            cur += ch
+    out.append(cur.strip())
+    return out
+
+
+def r5_judge(dn, rep_digits, rep_signed):
+    """dn: demangled `auto cnl::_impl::descale<Significand, 10, ...>(Rep const&, cnl::power<..>)`; None if fine"""
+    m = re.match(r"^auto cnl::_impl::descale<(.*)>\((.*)\)$", dn)
+    if not m:
+        raise tc.AnalysisBroken("descale instantiation not recognised: " + dn[:200])
+    sig = _split_targs(m.group(1))[0]
+    param = _split_targs(m.group(2))[0]
+    param = re.sub(r"\s*const&$", "", param).strip()
+    if sig == param:
+        return None, sig
+    if sig not in SIGTYPES:
+        raise tc.AnalysisBroken("working significand type `%s` is neither the Rep nor a built-in integer: extend SIGTYPES" % sig)
+    d, sg = SIGTYPES[sig]
+    if d < rep_digits or (rep_signed and not sg):
+        return "the working significand type `%s` (%d digits, %s) cannot represent every value of the Rep `%s` (%d digits, %s)" % (
+            sig, d, "signed" if sg else "unsigned", param, rep_digits, "signed" if rep_signed else "unsigned"), sig
+    return None, sig
+
+
 FORBIDDEN = [(r"^_ZNSolsE[a-z]$", "std::ostream::operator<<(arithmetic)"), (r"^_ZNSo9_M_insertI", "std::ostream::_M_insert<>"), (r"^_ZSt8to_chars", "std::to_chars"),
              (r"^_ZNSt7__cxx119to_stringE", "std::to_string"), (r"^v?s?n?printf$", "printf family"), (r"__to_chars", "std::__detail::__to_chars")]
 
@@ -39,7 +95,7 @@ FORBIDDEN = [(r"^_ZNSolsE[a-z]$", "std::ostream::operator<<(arithmetic)"), (r"^_
 def run(tier, seed, work):
     r = report.Run(PROP, tier, seed, "other")
     src = os.path.join(work, "t.cpp")
-    open(src, "w").write(SRC)
+    open(src, "w").write(SRC + R5_SRC)
     out = os.path.join(work, "t.ll")
     rc, so, se, cmd = tc.clang_ll(src, out, "o1ni")
     if rc != 0:
@@ -61,6 +117,32 @@ def run(tier, seed, work):
                     seen.add(y)
                     st.append(y)
         return seen
+    # R5
+    n_r5 = 0
+    for i, (rep, rd, rsg) in enumerate(REPS + [("control", 64, False)]):
+        e = "r5_%d" % i if rep != "control" else "r5_control"
+        if e not in mod.functions:
+            r.broke("R5: entry %s vanished" % e)
+            continue
+        if rep == "control":
+            ds = [x for x in edges[e] if dem.get(x, "").startswith("auto cnl::_impl::descale<")]
+        else:
+            tcf = [x for x in edges[e] if dem.get(x, "").startswith("auto cnl::to_chars<")]
+            if len(tcf) != 1:
+                r.broke("R5: %s does not call exactly one cnl::to_chars instantiation" % e)
+                continue
+            ds = [x for x in edges.get(tcf[0], ()) if dem.get(x, "").startswith("auto cnl::_impl::descale<")]
+        if len(ds) != 1:
+            r.broke("R5: expected one descale call for Rep %s, found %d" % (rep, len(ds)))
+            continue
+        why, sig = r5_judge(dem[ds[0]], rd, rsg)
+        if rep == "control":
+            if not why:
+                r.broke("R5 control: descale<int64_t>(uint64_t) was not reported")
+            continue
+        n_r5 += 1
+        if why:
+            r.violation("R5/" + rep, "cnl::to_chars(scaled_integer<%s, ...>): %s" % (rep, why), {"rep": rep, "descale": dem[ds[0]], "caller": dem[tcf[0]][:200]})
     entries = [n for n in mod.functions if n.startswith("e_")]
     ok_entries, samples = 0, []
     for e in sorted(entries):
@@ -135,11 +217,12 @@ def run(tier, seed, work):
             r.violation("R3/" + dn[:100], "%s: %s" % (dn[:140], p), {"function": dn, "ir": f.text()})
     common.floor_check(r, "entry points established", ok_entries, 9)
     common.floor_check(r, "to_chars_static instantiations inspected", n_static, 5)
+    common.floor_check(r, "R5 working-significand instances judged", n_r5, len(REPS))
     r.coverage = {
-        "explanation": "Only the last sentence of the property is decided: the fixed-capacity entry points format through cnl::to_chars on the same value (reachability, forbidden-formatter and argument/derivation rules on -O1 -fno-inline IR). Digit generation, truncation direction and exponents are not decided.",
-        "evaluations": len(entries) + n_static, "distinct_nontrivial": ok_entries + n_static,
+        "explanation": "Decided: the last sentence (the fixed-capacity entry points format through cnl::to_chars on the same value: reachability, forbidden-formatter and argument/derivation rules on -O1 -fno-inline IR) and one structural necessary condition of the sign/magnitude clause (R5: the working significand type of every to_chars<Rep> instantiation represents all of Rep). Digit generation, truncation direction and exponents are not decided.",
+        "evaluations": len(entries) + n_static + n_r5, "distinct_nontrivial": ok_entries + n_static + n_r5,
         "rule": "non-trivial = entry point for which R1 and R2 hold, or to_chars_static instantiation for which R3 was evaluated",
-        "entry_points": len(entries) - 1, "entry_points_ok": ok_entries, "to_chars_static_instances": n_static,
+        "r5_instances": n_r5, "entry_points": len(entries) - 1, "entry_points_ok": ok_entries, "to_chars_static_instances": n_static,
         "samples": samples[:6], "exhaustive": False,
     }
     return r.finish()
